@@ -77,8 +77,8 @@ with `VK_REPO=<worktree>`; results in `evidence/sensitivity.json`): {caught} of 
 |---|---|---|---|
 ''' + "\n".join(srow) + f'''
 
-**Independently seeded changes** (`seeded/<name>/`: `patch.diff`, `demo.py`, `notes.md`, `meta.json`; `-r2` = second
-round, where the sub-agent was told the first-round idea and asked for a different mechanism/clause). One fresh
+**Independently seeded changes** (`seeded/<name>/`: `patch.diff`, `demo.py`, `notes.md`, `meta.json`; `-r2`, `-r3`, `-r4` = later
+rounds, where the sub-agent was told the earlier ideas for that property and asked for a different mechanism/clause). One fresh
 sub-agent per property and round was given only the property text and a scratch worktree (nothing from /verif).
 Every change was confirmed here in a fresh worktree (`tools_seed_verify.sh`: patch applies, demo exits 0 without and
 1 with the change, `pytest -n 8` passes with it) before the check was run against it. "caught by" is the cheapest
